@@ -29,6 +29,10 @@ class PROP(Prop):
             stream = b"".join(frames)
             for parts in mb.chunkings(stream, rng, 2) + [[stream]] + ([[stream[i:i + 1] for i in range(len(stream))]] if len(stream) < 120 else []):
                 cs.append(Case("SRV rtu %s - - -" % mb.rscript(parts), {"k": "srv_clean", "exp": exp + ["WAIT"], "nparts": len(parts), "nframes": k}))
+                # the same stream to a service that ANSWERS every request (with an exception): answering must not cost any of the
+                # frames that arrived in the same read
+                cs.append(Case("SRV rtu %s - - %s" % (mb.rscript(parts), ",".join(["x=%d" % rng.randrange(1, 12) for _ in range(k)])),
+                               {"k": "srv_clean", "exp": exp + ["WAIT"], "nparts": len(parts), "nframes": k, "answered": True}))
         # EVERY payload length of the variable-size requests (complete sweep of the byte-count arithmetic of the request table),
         # each between two small frames so that a lost frame or a lost successor shows
         small1, small2 = mb.rtu_frame(0x11, b"\x11"), mb.rtu_frame(0x22, b"\x03\x00\x01\x00\x02")
@@ -173,7 +177,7 @@ class PROP(Prop):
             return "panic/hang"
         k = m["k"]
         if k in ("srv_clean", "srv_allcomp"):
-            tr = r.split(",")
+            tr = [t for t in r.split(",") if not (m.get("answered") and t.startswith("W:"))]
             return None if tr == m["exp"] else "clean stream: delivered %s, want %s" % (r[:90], ",".join(m["exp"])[:90])
         if k == "cli_clean":
             res, _ = cligen.res_and_w(r)
